@@ -289,6 +289,70 @@ def run(chk, prog):
             enc = A.enclosing(idx, x, {"IfStmt"})
             ct = A.show(enc[0]["cond"]).replace(" ", "") if enc else ""
             chk.check("s>0" in ct and "xi>=-1" in ct, "R5", site, "resistive wall is used only for s > 0 and xi >= -1 (%s)" % ct, "makeImpedance:rw-guard")
+    # the passivity argument (R3) assumed positive geometry/material parameters: in the factory every argument that
+    # lands on such a parameter must be provably positive (non-negative) where the model is built
+    POSITIVE_PARAMS = {"vfps::ParallelPlatesCSR": ("f0", "f_max", "g"), "vfps::FreeSpaceCSR": ("f_rev", "f_max"),
+                       "vfps::ResistiveWall": ("f0", "f_max", "L", "s", "b"), "vfps::CollimatorImpedance": ("f_max", "outer", "inner")}
+    ASSUMED_POSITIVE = {"fmax", "frev", "R_bend", "nfreqs", "physcons_c", "boost_math_constants_two_pi()"}
+    smk = I.scan(mk)
+
+    def facts_from_guards(node):
+        pos, nz = set(), set()
+        for e_ in A.enclosing(idx, node, {"IfStmt"}):
+            in_then = node["id"] in {y["id"] for y in A.walk(e_["then"])}
+            if not in_then:
+                continue
+            conj = []
+
+            def split(n_):
+                n_ = A.strip(n_)
+                if n_.get("k") == "BinaryOperator" and n_["op"] == "&&":
+                    split(n_["c"][0]); split(n_["c"][1])
+                else:
+                    conj.append(n_)
+            split(e_["cond"])
+            for c_ in conj:
+                if c_.get("k") != "BinaryOperator":
+                    continue
+                l, r = A.strip(c_["c"][0]), A.strip(c_["c"][1])
+                ln, rn = (A.declref(l) or {}).get("name"), (A.declref(r) or {}).get("name")
+                lz = l.get("k") in ("IntegerLiteral", "FloatingLiteral") and (l.get("value") or 0) == 0
+                rz = r.get("k") in ("IntegerLiteral", "FloatingLiteral") and (r.get("value") or 0) == 0
+                if c_["op"] == ">" and ln and rz:
+                    pos.add(ln)
+                if c_["op"] == "<" and lz and rn:
+                    pos.add(rn)
+                if c_["op"] == "!=" and ln and rz:
+                    nz.add(ln)
+        return pos, nz
+    for x in adds:
+        rhs = A.strip(x["args"][1], casts=False)
+        while rhs["k"] in ("MaterializeTemporaryExpr", "CXXBindTemporaryExpr", "ImplicitCastExpr", "CXXFunctionalCastExpr") and rhs.get("c"):
+            rhs = A.strip(rhs["c"][0], casts=False)
+        cls = rhs.get("callee_class")
+        if cls not in POSITIVE_PARAMS:
+            continue
+        pos, nz = facts_from_guards(x)
+
+        def tab(e_):
+            if e_.is_Symbol:
+                nm_ = str(e_)
+                if nm_ in pos or nm_ in ASSUMED_POSITIVE:
+                    return Sg.POS
+                return Sg.TOP
+            if e_.func == sp.Abs:
+                inner_ = e_.args[0]
+                if all(str(t) in nz or str(t) in pos for t in inner_.free_symbols):
+                    return Sg.POS
+                return Sg.NNEG
+            return None
+        for pn, a_ in zip(rhs.get("callee_params", []), rhs.get("args", [])):
+            if pn not in POSITIVE_PARAMS[cls]:
+                continue
+            v = smk._try(a_)
+            sg = Sg.sign(v, tab) if v is not None else Sg.TOP
+            chk.check(sg in (Sg.POS,), "R5", A.loc(mk, x), "%s: argument for '%s' = %s is positive where the model is built (sign %s; facts from guards: >0 %s, !=0 %s)"
+                      % (cls.split("::")[-1], pn, v, sg, sorted(pos), sorted(nz)), "makeImpedance:%s:%s:sign:%s" % (cls, pn, sg))
     # nothing selected -> nullptr, exactly under !impedance_changed
     nul = [x for x in A.walk(mk["body"]) if x["k"] in ("CXXOperatorCallExpr", "BinaryOperator") and x.get("op") == "=" and
            "rv" == A.show(x["args"][0] if x["k"] == "CXXOperatorCallExpr" else x["c"][0]) and "nullptr" in A.show(x)]
